@@ -108,16 +108,21 @@ def r3(ctx):
             "util::get_exif_metadata": "Option::None"}
     for fn, val in fall.items():
         h = ctx.anchor_hir(fn)
+        leaves = [render(peel_result(l)) for l, _ in leaf_results(h)]
         tail = render(peel_result(h["expr"])) if "expr" in h else None
-        ok = tail == val
+        # the empty value is among the function's results, and the open is consumed by a pattern / is_err test (so that its
+        # failure reaches that result; an unwrap or `?` would be reported by the panic / propagation rules above)
         opens = [c for c in walk_exprs(h) if c["k"] == "Call" and str(c.get("callee", "")).endswith("File::open")]
+        consumed = True
         for o in opens:
-            g = guards_of(h, o)
-        ok = ok and all(any(y is o for y in walk_exprs(x["c"])) for o in opens for x in [xx for xx in walk_exprs(h) if xx["k"] == "If" and any(y is o for y in walk_exprs(xx["c"]))][:1])
+            chain = path_to(h, o) or []
+            consumed = consumed and any((a["k"] == "LetE") or (a["k"] == "Match" and a.get("src") == "Normal") or
+                                        (a["k"] == "MCall" and a["m"] in ("is_err", "is_ok", "ok")) or (a["k"] == "Let") for a, _ in chain)
+        ok = val in leaves and consumed
         n += 1
         ctx.obligation(ok)
         if not ok:
-            ctx.violation("reader/fallback/%s" % short(fn, 1), ctx.where(fn), "%s must fall back to %s when the file cannot be opened or read; its tail is %s" % (short(fn, 1), val, tail))
+            ctx.violation("reader/fallback/%s" % short(fn, 1), ctx.where(fn), "%s must fall back to %s when the file cannot be opened or read; its results are %s" % (short(fn, 1), val, sorted(set(leaves))[:6]))
     ctx.covered("content readers: no `?`, empty-value fallback, open consumed by `if let Ok`", n, distinct_keys=READERS)
 
 
